@@ -104,8 +104,8 @@ SHUF_FAMS = {
 }
 
 
-def shuf_consts(kind, kmin, kmax, nq=1, bind_simple=True):
-    return {"Kind": kind, "KMin": kmin, "KMax": kmax, "NQMax": nq, "Fams": SHUF_FAMS[kind],
+def shuf_consts(kind, kmin, kmax, nq=1, bind_simple=True, fams=None):
+    return {"Kind": kind, "KMin": kmin, "KMax": kmax, "NQMax": nq, "Fams": fams or SHUF_FAMS[kind],
             "BindSimple": bind_simple, "BindStatement": True}
 
 
@@ -126,15 +126,34 @@ def c15(ctx):
         if not run["violated"]:
             raise Broken("self-test: the model without the simple-shuffle binding satisfies the invariants")
 
+    # the two big enumerations are split by family into two TLC runs each (same permutations, disjoint families; wall time)
+    half = lambda kind, fams, name: (lambda: gen(ctx, "Shuffle", shuf_consts(kind, 2, 5, 1, fams=fams), name,
+                                                 invariants=SHUF_INV + ["Emit"], workers=W))
+    pair_b = [f for f in SHUF_FAMS["pair"] if f not in OUT_F]
+    simple_a = ["replace", "scal", "dup", "sum", "mutate", "eqviol"]
+    simple_b = [f for f in SHUF_FAMS["simple"] if f not in simple_a]
+
+    def joined(name, *thunks):
+        def run():
+            parts = par(ctx, list(thunks), width=len(thunks))
+            out = os.path.join(ctx.tmp, name + ".ndjson")
+            with open(out, "w") as f:
+                for p in parts:
+                    f.write(open(p).read())
+            return out
+        return run
+
     jobs = [
-        ex("pair", 2, 5, 1, "C15_pair"), ex("simple", 2, 5, 1, "C15_simple"), ex("biffle", 2, 2, 1, "C15_biffle"),
+        joined("C15_pair", half("pair", OUT_F, "C15_pair_out"), half("pair", pair_b, "C15_pair_prf")),
+        joined("C15_simple", half("simple", simple_a, "C15_simple_a"), half("simple", simple_b, "C15_simple_b")),
+        ex("biffle", 2, 2, 1, "C15_biffle"),
         ex("seq", 2, 3 if q else 4, 4, "C15_seq"),
         sim("pair", 6, 12 if q else 40, 1, 25 if q else 250, "C15_sim_pair"),
         sim("simple", 6, 12 if q else 40, 1, 10 if q else 100, "C15_sim_simple"),
         sim("seq", 4 if q else 5, 8 if q else 16, 4, 15 if q else 200, "C15_sim_seq"),
         unfixed,
     ]
-    outs = par(ctx, jobs)
+    outs = par(ctx, jobs, width=8)
     caps = {0: 3500 if q else 0, 1: 3000 if q else 0, 3: 2000 if q else 0}
     for i, bh in enumerate(outs[:7]):
         ctx.run_vh("shuffle", ["-in", bh, "-max", caps.get(i, 0)], binary=b)
